@@ -30,6 +30,9 @@ func runC07(w *World, r *Report) {
 	r.Rule("C07/STAMPED", "the manifest resource list of the new revision is stamped with setMetadataVisitor(record.Name, record.Namespace) before any cluster write in install, upgrade and rollback", 3)
 	r.Rule("C07/DELETE-PROVENANCE", "every list handed to a cluster Delete in pkg/action derives from a release/hook manifest of the operation, from the Created field of this operation's own update result, or (recreate) from its Updated field", 5)
 
+	r.Rule("C07/WIRING", "TakeOwnership is never fed from a differently named option and upgrade --install carries it over", 2)
+	checkWiring(w, r, "C07/WIRING", map[string]bool{"TakeOwnership": true})
+	checkCarried(w, r, "C07/WIRING", []string{"TakeOwnership"})
 	c07CheckFirst(w, r, ef)
 	c07CheckContent(w, r)
 	c07Stamped(w, r, ef)
